@@ -35,11 +35,19 @@ func streamOpen(stream string) bool {
 
 // modelCheck asks the model (unless the stream is closed) and records a disagreement; returns false on one.
 func modelCheck(r *corr.Run, prop, stream string, ops func() []string, op, impl string) bool {
+	return modelCheckF(r, prop, stream, ops, op, impl, nil)
+}
+
+// modelCheckF: as modelCheck, comparing norm(model answer) with impl (norm may also count what the model did).
+func modelCheckF(r *corr.Run, prop, stream string, ops func() []string, op, impl string, norm func(string) string) bool {
 	if !streamOpen(stream) {
 		r.Count("corr.skipped." + stream)
 		return true
 	}
 	model := r.Ask(op)
+	if norm != nil {
+		model = norm(model)
+	}
 	if model == impl {
 		return true
 	}
@@ -154,6 +162,50 @@ func (w *world) corrReplica(rep *replica, what string) {
 		op := strings.Join(parts, " ")
 		modelCheck(w.r, "C06", "tree.stored", func() []string { return append(w.ops(), what, op) }, op, "ok "+in.list(sids))
 	}
+}
+
+// corrAddRaw: the set of changes the real AddRawChanges reports as added (= writes to storage) against the model's
+// `addRaw` (in-memory branch / rebuild-from-storage branch) on the receiver's pre-state.
+func (w *world) corrAddRaw(pre addRawPre, batchIds []string, theirPath []string, addedIds []string, what string) {
+	var ids []string
+	ids = append(ids, w.idsOf(pre.att)...)
+	ids = append(ids, w.idsOf(batchIds)...)
+	ids = append(ids, w.idsOf(pre.stored)...)
+	ids = append(ids, pre.path...)
+	ids = append(ids, theirPath...)
+	in := newInterner(ids)
+	var attS, bS, stS []string
+	attS = append(attS, in.change(w.info[pre.root]))
+	for _, id := range pre.att {
+		if id != pre.root {
+			attS = append(attS, in.change(w.info[id]))
+		}
+	}
+	for _, id := range batchIds {
+		bS = append(bS, in.change(w.info[id]))
+	}
+	for _, id := range pre.stored {
+		stS = append(stS, in.change(w.info[id]))
+	}
+	op := fmt.Sprintf("addraw %d %s %s | %s | %s | %s", in.n(pre.root), in.list(pre.path), in.list(theirPath),
+		strings.Join(attS, " "), strings.Join(bS, " "), strings.Join(stS, " "))
+	impl := "added=" + in.sortedList(addedIds)
+	modelCheckF(w.r, "C09", "objecttree.addraw", func() []string { return append(w.ops(), what, op) }, op, impl,
+		func(m string) string {
+			f := strings.Fields(m)
+			if len(f) == 3 && f[0] == "ok" {
+				w.r.Count("corr.addraw." + f[1])
+				return f[2]
+			}
+			return m
+		})
+}
+
+type addRawPre struct {
+	root   string
+	att    []string
+	stored []string
+	path   []string
 }
 
 // corrRebuild: the tree just built from storage against the model's `buildFromStorage` on the stored sequence.
